@@ -211,7 +211,8 @@ static json run_one(json const& run, std::vector<std::string> const& inputs) {
         } catch (std::exception const& e) {
           cr["r"] = "exc"; cr["what"] = e.what();
           calls.push_back(cr);
-          break;   // behaviour after the first error is unspecified
+          if (run.value("keep_going", false)) continue;   // histories that go on after a rejected call
+          break;
         }
         calls.push_back(cr);
       }
